@@ -948,6 +948,7 @@ class Server:
             asyncio.create_task(self.parse_command(stream)),
         }
         self.connections[key] = connection
+        login_task = None
         try:
             while True:
                 done, pending = await asyncio.wait(
@@ -956,6 +957,11 @@ class Server:
                 )
                 connection.extra_workers -= done
                 for task in done:
+                    if task is login_task:
+                        login_task = None
+                        pending.add(
+                            asyncio.create_task(self.parse_command(stream)),
+                        )
                     try:
                         result = task.result()
                     except errors.PathIOError:
@@ -968,11 +974,19 @@ class Server:
                             return
                     # this is parse_command result
                     elif isinstance(result, tuple):
+                        cmd, rest = result
+                        f = self.commands_mapping.get(cmd)
+                        if f is not None and cmd in ("user", "pass"):
+                            # user manager calls may suspend: nothing sent
+                            # after a login command is looked at before the
+                            # login state is settled
+                            login_task = asyncio.create_task(f(connection, rest))
+                            pending.add(login_task)
+                            connection.restart_offset = 0
+                            continue
                         pending.add(
                             asyncio.create_task(self.parse_command(stream)),
                         )
-                        cmd, rest = result
-                        f = self.commands_mapping.get(cmd)
                         if f is not None:
                             pending.add(
                                 asyncio.create_task(f(connection, rest)),
